@@ -262,6 +262,11 @@ class BoundaryType(AbstractType):
                 return self.max_inclusive == __o.max_inclusive
         return False
 
+    def __hash__(self) -> int:
+        # Must agree with __eq__, which ignores max_inclusive for an infinite upper bound
+        max_inclusive = None if self.max == BoundaryType.INFINITY else self.max_inclusive
+        return hash((self.base_type, self.min, self.max, self.min_inclusive, max_inclusive))
+
     def to_dict(self) -> dict[str, Any]:
         return {
             "kind": self.__class__.__name__,
